@@ -5,6 +5,9 @@ open PedVerif.Subproc
 #print axioms own_result
 #print axioms reader_table_invariant
 #print axioms other_tasks_run
+#print axioms other_tasks_run_partial
+#print axioms join_blocks_other_tasks
+#print axioms other_tasks_run_full_false
 #print axioms terminates_and_releases
 #print axioms run_length_bounded
 #print axioms childBeh_table
